@@ -3,6 +3,7 @@
 package main
 
 import (
+	"encoding/json"
 	"flag"
 	"fmt"
 	"os"
@@ -196,6 +197,20 @@ func doDump(p *core.Prog, what, fnSpec, match string) {
 				fmt.Printf(" #%d %s\n    atoms: %s\n    calls: %s\n    ret: %s\n", i, pt.End, strings.Join(atomList(pt.Atoms), "  "), strings.Join(evs, " ; "), strings.Join(rets, " | "))
 			}
 		}
+	case "params":
+		// reference parameter names by position (frozen into internal/core/refparams.json)
+		out := map[string][]string{}
+		for _, f := range p.Prod {
+			var names []string
+			for _, q := range f.Params {
+				names = append(names, q.Name())
+			}
+			if len(names) > 0 {
+				out[f.String()] = names
+			}
+		}
+		b, _ := json.MarshalIndent(out, "", " ")
+		fmt.Println(string(b))
 	case "fsm":
 		rules.DumpFSM(p)
 	default:
